@@ -128,6 +128,8 @@ def run(F, chk):
     check_quantifiers(F, G9, sf)
     G10 = chk.rule('G10', '`filters_active` (the gate in front of match_filters for remote streams) is computed from every filter kind that match_filters consults')
     check_active_shortcut(F, G10)
+    G12 = chk.rule('G12', 'stream filter: a message is counted as filtered out only on a path that evaluated a quantification over a filter collection with Filter::matches')
+    check_drop_needs_verdict(F, sf, G12)
 
 
 ALL_KINDS = frozenset(['Positive', 'Negative', 'Marker', 'Event'])
@@ -549,3 +551,93 @@ def check_active_shortcut(F, G10):
                               '%s computes `filters_active` at %s from the %s filters only, but match_filters also consults the %s filters: a stream whose filter set has only %s filters is treated as unfiltered' %
                               (b.path, b.loc(s.sp), '/'.join(sorted(used)) or 'no', '/'.join(sorted(missing)), '/'.join(sorted(missing))), where=b.loc(s.sp))
     G10.floor('computations of filters_active', n, 1)
+
+
+# ---------------------------------------------------------------------------------------------
+# G12: a message is only filtered out on the verdict of the filters
+
+def check_drop_needs_verdict(F, sf, G12):
+    """In the stream filter a message may be counted as filtered out only after at least one quantification over a filter
+    collection with Filter::matches was evaluated for it (no positive filter matched / some negative filter matched).
+    A path from the receive to `dropped += 1` that consults no filter decides on something else (a pre-filter on a
+    field, a cache, ...) and disagrees with match_filters on the same filter set."""
+    import comparators
+    n = 0
+    for b in sf:
+        cl = counter_locals(b)
+        if cl is None:
+            continue
+        kept, dropped = cl
+        cfg = CFG(b)
+        G12.fn(b.path)
+        quants = set()
+        for blk in b.calls():
+            t = blk.term
+            if not QUANT.search(t.callee.path) or not t.args:
+                continue
+            a0 = t.args[0].ty or ''
+            if FILTER not in a0:
+                continue
+            for a in t.args[1:]:
+                if '{closure@' in (a.ty or ''):
+                    c2 = comparators.closure_path_of(F, b, a)
+                    if c2 is not None and any(x.term.callee.path.endswith('Filter::matches') for x in c2.calls()):
+                        quants.add(blk.i)
+        recvs = [blk.i for blk in b.calls() if re.search(r'mpsc::Receiver::<T>::(recv|recv_timeout|try_recv)$', blk.term.callee.path) or
+                 (blk.term.callee.path == 'std::iter::Iterator::next' and 'mpsc::' in (blk.term.args[0].ty or ''))]
+        drops = []
+        for blk in b.blocks:
+            if blk.cleanup:
+                continue
+            for s in blk.stmts:
+                if s.k == 'assign' and s.place.is_local and s.place.l == dropped and s.rv['k'] == 'use' and Operand(s.rv['o']).place is not None and Operand(s.rv['o']).place.p:
+                    drops.append(blk.i)
+        G12.floor('quantifications with Filter::matches in the stream filter', len(quants), 2)
+        G12.floor('receive sites', len(recvs), 1)
+        G12.floor('increments of the filtered-out counter', len(drops), 1)
+        from paths import Explorer
+        rset = set(recvs)
+
+        def block_effect(blk, facts, quants=quants, rset=rset):
+            if blk.i in rset:
+                facts = frozenset(f for f in facts if f != ('verdict',))
+            if blk.i in quants:
+                facts = frozenset(facts | {('verdict',)})
+            return facts
+        # named bool locals with at least one constant definition (`found = if pos.is_empty() { true } else { pos.any(..) }`)
+        xf = set()
+        for l, ds in cfg.defs.items():
+            if b.lty(l) == 'bool' and b.name_of(l) is not None and l > b.arg_count and \
+                    any(si != 'call' and d.rv['k'] == 'use' and Operand(d.rv['o']).is_const for (bi, si, d) in ds):
+                xf.add(l)
+        grew = True
+        while grew:
+            grew = False
+            for l, ds in cfg.defs.items():
+                if l in xf or b.lty(l) != 'bool' or l <= b.arg_count:
+                    continue
+                for (bi, si, d) in ds:
+                    if si != 'call' and d.rv['k'] == 'use':
+                        o = Operand(d.rv['o'])
+                        if o.place is not None and o.place.is_local and o.place.l in xf:
+                            xf.add(l)
+                            grew = True
+                            break
+        ex = Explorer(cfg, block_effect=block_effect, var_roots=set(), extra_flags=xf)    # propagates the bool flags (found = true ..)
+        ex.run()
+        G12.paths += ex.n_states
+        for d in drops:
+            n += 1
+            G12.sites += 1
+            sts = ex.states.get(d, ())
+            bad = [st for st in sts if ('verdict',) not in st[1]]
+            if sts and not bad:
+                bad = None
+            elif not sts:
+                bad = None     # unreachable under flag propagation
+            if bad is None:
+                G12.ok(sample={'function': b.path, 'filtered_out_counted_at': b.loc(b.blocks[d].term.sp), 'only_after': 'a quantification over a filter collection with Filter::matches'})
+            else:
+                G12.violation(('dropped-without-verdict', b.path), '%s can count a message as filtered out at %s on a path from the receive that evaluates no filter at all: the decision is taken by something other than '
+                              'the positive/negative filters' % (b.path, b.loc(b.blocks[d].term.sp)), where=b.loc(b.blocks[d].term.sp))
+    G12.floor('filtered-out counter increments checked', n, 1)
